@@ -25,12 +25,27 @@ fn native_marginfi_entry(program_id: &Pubkey, accounts: &[solana_sdk::account_in
     marginfi::entry(program_id, accounts, data)
 }
 
+fn noop_entry(_program_id: &Pubkey, _accounts: &[solana_sdk::account_info::AccountInfo], _data: &[u8]) -> solana_sdk::entrypoint::ProgramResult {
+    Ok(())
+}
+
+/// the "via CPI" proxy: accounts[0] is the program to call, the rest are the inner instruction's
+/// accounts with their flags, the data is the inner instruction's data
+fn proxy_entry(_program_id: &Pubkey, accounts: &[solana_sdk::account_info::AccountInfo], data: &[u8]) -> solana_sdk::entrypoint::ProgramResult {
+    let inner = Instruction { program_id: *accounts[0].key, accounts: accounts[1..].iter().map(|a| AccountMeta { pubkey: *a.key, is_signer: a.is_signer, is_writable: a.is_writable }).collect(), data: data.to_vec() };
+    solana_sdk::program::invoke(&inner, accounts)
+}
+
 struct Case {
     name: String,
     pre: Store,
     tx: Tx,
     e1_ok: bool,
     e1_code: u32,
+    /// the custom error code, if the failure was a custom program error
+    e1_custom: Option<u32>,
+    /// not a valid Solana transaction although E1 executes it (two compute-budget instructions)
+    invalid_on_chain: bool,
     e1_post: Store,
 }
 
@@ -61,6 +76,12 @@ async fn run_on_program_test(c: &Case) -> (bool, u32, Vec<String>) {
     let mut pt = ProgramTest::default();
     pt.prefer_bpf(false);
     pt.add_program("marginfi", marginfi::ID, processor!(native_marginfi_entry));
+    for k in [marginfi::constants::JUP_KEY, vh::world::key("c10:evil_program"), solana_sdk::pubkey!("KLend2g3cP87fffoy8q1mQqGKjrxjC8boSyAYavgmjD")] {
+        pt.add_program("noop", k, processor!(noop_entry));
+    }
+    for k in [vh::checks::c10::proxy(), vh::checks::c11::proxy()] {
+        pt.add_program("proxy", k, processor!(proxy_entry));
+    }
     for (k, a) in c.pre.accts.iter() {
         if a.executable || is_builtin(k) {
             continue;
@@ -73,7 +94,22 @@ async fn run_on_program_test(c: &Case) -> (bool, u32, Vec<String>) {
     clock.slot = c.pre.slot.max(clock.slot);
     clock.epoch = c.pre.epoch;
     ctx.set_sysvar(&clock);
-    let ixs: Vec<Instruction> = c.tx.ixs.iter().map(|i| Instruction { program_id: i.program_id, accounts: i.accounts.iter().map(|m| AccountMeta { pubkey: m.pubkey, is_signer: m.is_signer, is_writable: m.is_writable }).collect(), data: i.data.clone() }).collect();
+    let ixs: Vec<Instruction> = c
+        .tx
+        .ixs
+        .iter()
+        .map(|i| {
+            let metas: Vec<AccountMeta> = i.accounts.iter().map(|m| AccountMeta { pubkey: m.pubkey, is_signer: m.is_signer, is_writable: m.is_writable }).collect();
+            match i.proxy {
+                None => Instruction { program_id: i.program_id, accounts: metas, data: i.data.clone() },
+                Some(p) => {
+                    let mut ms = vec![AccountMeta::new_readonly(i.program_id, false)];
+                    ms.extend(metas);
+                    Instruction { program_id: p, accounts: ms, data: i.data.clone() }
+                }
+            }
+        })
+        .collect();
     let mut kps: Vec<Keypair> = vec![];
     for s in &c.tx.signers {
         match keypair_of(s) {
@@ -97,13 +133,25 @@ async fn run_on_program_test(c: &Case) -> (bool, u32, Vec<String>) {
     let res = ctx.banks_client.process_transaction(tx).await;
     let (ok, code) = match &res {
         Ok(()) => (true, 0u32),
-        Err(e) => match e.unwrap() {
-            TransactionError::InstructionError(_, InstructionError::Custom(c)) => (false, c),
-            other => (false, {
-                eprintln!("    program-test error for {}: {:?}", c.name, other);
-                u32::MAX - 1
-            }),
-        },
+        Err(e) => {
+            use solana_program_test::BanksClientError as B;
+            let te = match e {
+                B::TransactionError(te) => Some(te.clone()),
+                B::SimulationError { err, .. } => Some(err.clone()),
+                other => {
+                    eprintln!("    program-test transport error for {}: {:?}", c.name, other);
+                    None
+                }
+            };
+            match te {
+                Some(TransactionError::InstructionError(_, InstructionError::Custom(c))) => (false, c),
+                Some(other) => (false, {
+                    eprintln!("    program-test error for {}: {:?}", c.name, other);
+                    u32::MAX - 1
+                }),
+                None => (false, u32::MAX - 2),
+            }
+        }
     };
     let mut diffs = vec![];
     if ok && c.e1_ok {
@@ -148,29 +196,105 @@ async fn run_on_program_test(c: &Case) -> (bool, u32, Vec<String>) {
 }
 
 fn main() {
-    let only: Option<String> = std::env::args().nth(1);
-    // ---- phase 1: E1
-    let env = vh::golden::build_env();
-    let goldens = vh::golden::goldens();
+    std::env::set_var("RUST_LOG", "off");
+    let family: String = std::env::args().nth(1).unwrap_or_else(|| "all".into());
+    let want = |f: &str| family == "all" || family == f;
     let mut cases: Vec<Case> = vec![];
-    for g in &goldens {
-        if let Some(o) = &only {
-            if !g.name.contains(o.as_str()) {
-                continue;
+    let mut push = |name: String, pre: &Store, tx: Tx| {
+        let mut post = pre.clone();
+        let r = process_tx(&mut post, &tx);
+        let raw = r.code();
+        let e1_custom = if r.ok() { None } else if raw < (1u64 << 32) { Some(raw as u32) } else if raw == (1u64 << 32) { Some(0) } else { None };
+        let cb = tx.ixs.iter().filter(|i| i.program_id == marginfi::constants::COMPUTE_PROGRAM_KEY).count();
+        cases.push(Case { name, pre: pre.clone(), tx, e1_ok: r.ok(), e1_code: r.custom(), e1_custom, invalid_on_chain: cb > 1, e1_post: post });
+    };
+    // ---- phase 1: E1
+    // (1) one golden call and one refusal per instruction kind
+    if want("goldens") {
+        let env = vh::golden::build_env();
+        for g in &vh::golden::goldens() {
+            let pre = (g.prep)(&env);
+            for (variant, signer) in [("golden", vh::golden::role_key(&env, g.role)), ("refusal(stranger signs)", vh::act::stranger())] {
+                if variant != "golden" && matches!(g.role, vh::golden::Role::Anyone) {
+                    continue;
+                }
+                let tx = (g.make)(&env, &pre, signer);
+                push(format!("golden: {} / {}", g.name, variant), &pre, tx);
             }
         }
-        let pre = (g.prep)(&env);
-        for (variant, signer) in [("golden", vh::golden::role_key(&env, g.role)), ("refusal(stranger signs)", vh::act::stranger())] {
-            if variant != "golden" && matches!(g.role, vh::golden::Role::Anyone) {
-                continue;
+    }
+    // (2) a covering set of history transitions: for every world and root of the C01 model and every
+    // state one successful step away, the first transition of each (action kind, result code) class
+    if want("transitions") {
+        use vh::mc::Model;
+        for world in ["A", "B", "C", "D"] {
+            let h = vh::checks::c01::model(vh::checks::Tier::Quick, world);
+            let mut seen: std::collections::BTreeSet<(String, u32)> = Default::default();
+            let mut frontier: Vec<(String, vh::hist::HState)> = h.roots.clone();
+            for depth in 0..2 {
+                let mut next = vec![];
+                for (rname, st) in &frontier {
+                    for a in h.actions(st) {
+                        let Some(tx) = vh::act::tx_for(&h.w, &st.s, &a) else {
+                            // environment action: only changes the state
+                            if depth == 0 {
+                                let mut t = st.clone();
+                                vh::act::apply(&h.w, &mut t.s, &a);
+                                next.push((format!("{rname}+{:?}", a), t));
+                            }
+                            continue;
+                        };
+                        let mut post = st.s.clone();
+                        let r = process_tx(&mut post, &tx);
+                        let kind = vh::hist::action_kind(&a).to_string();
+                        if seen.insert((kind.clone(), r.custom())) {
+                            push(format!("transition: world {world} {rname} {:?}", a), &st.s, tx);
+                        }
+                        if r.ok() && depth == 0 && next.len() < 60 {
+                            let mut t = st.clone();
+                            t.s = post;
+                            next.push((format!("{rname}+{kind}"), t));
+                        }
+                    }
+                }
+                frontier = next;
             }
-            let tx = (g.make)(&env, &pre, signer);
-            if tx.ixs.iter().any(|i| i.proxy.is_some()) {
-                continue;
+        }
+    }
+    // (3) receivership shapes: every list of length <= 2, every committed bracket up to length 4 and
+    // the first refused list of each error code (instructions sysvar, CPI stack height, allow-lists)
+    if want("c10") {
+        use vh::checks::c10 as m;
+        let sc = m::scene("a", 0.05, [1000.0, 1000.0], [864.0, 864.0]);
+        let alpha = m::alphabet(vh::checks::Tier::Quick);
+        let liq = sc.w.users[sc.liq].authority;
+        let mut codes: std::collections::BTreeSet<String> = Default::default();
+        for list in m::shapes(&alpha, 4) {
+            let out = m::run_shape(&sc, &list);
+            let keep = list.len() <= 2 || (out.committed && out.class.ends_with("took_control")) || codes.insert(out.class.clone());
+            if keep {
+                let ixs: Vec<vh::svm::Ix> = list.iter().map(|s| m::build_ix(&sc, &sc.s, *s)).collect();
+                push(format!("c10 shape: {:?}", list), &sc.s, Tx::new(ixs, &[liq]));
             }
-            let mut post = pre.clone();
-            let r = process_tx(&mut post, &tx);
-            cases.push(Case { name: format!("{} / {}", g.name, variant), pre: pre.clone(), tx, e1_ok: r.ok(), e1_code: r.custom(), e1_post: post });
+        }
+    }
+    // (4) flash-loan shapes: every list of length <= 2 in the normal state, committed brackets up to
+    // length 3 in every state, first refusal of each code
+    if want("c11") {
+        use vh::checks::c11 as m;
+        for st in [m::St::Normal, m::St::Frozen, m::St::Unhealthy, m::St::Bankrupt] {
+            let sc = m::scene(st);
+            let alpha = m::alphabet(3);
+            let signers = [sc.w.users[0].authority, sc.w.users[1].authority, sc.w.roles.risk];
+            let mut codes: std::collections::BTreeSet<String> = Default::default();
+            for list in m::shapes(&alpha, 3) {
+                let out = m::run_shape(&sc, st, &list);
+                let keep = (st == m::St::Normal && list.len() <= 2) || out.class.contains("with_bracket") || codes.insert(out.class.clone());
+                if keep {
+                    let ixs: Vec<vh::svm::Ix> = list.iter().map(|s| m::build_ix(&sc, *s)).collect();
+                    push(format!("c11 shape: {:?} {:?}", st, list), &sc.s, Tx::new(ixs, &signers));
+                }
+            }
         }
     }
     eprintln!("phase 1 (E1): {} transactions", cases.len());
@@ -179,25 +303,44 @@ fn main() {
     let mut agree = 0;
     let mut disagree: Vec<String> = vec![];
     let mut rows: Vec<serde_json::Value> = vec![];
-    for c in &cases {
+    let mut per_family: BTreeMap<String, (u64, u64)> = BTreeMap::new();
+    let mut skipped_invalid = 0u64;
+    for (n, c) in cases.iter().enumerate() {
+        if c.invalid_on_chain {
+            // the real runtime refuses the whole transaction (duplicate compute-budget instruction);
+            // E1 is more permissive here, which can only add behaviours to the explored space
+            skipped_invalid += 1;
+            continue;
+        }
         let (ok, code, diffs) = rt.block_on(run_on_program_test(c));
-        let same_verdict = ok == c.e1_ok && (ok || code == c.e1_code);
+        let same_verdict = ok == c.e1_ok
+            && (ok
+                || match c.e1_custom {
+                    Some(cc) => cc == code,
+                    // a built-in (non-custom) error in E1: program-test must also report a non-custom error
+                    None => code >= u32::MAX - 2,
+                });
         let same = same_verdict && diffs.is_empty();
+        let fam = c.name.split(':').next().unwrap().to_string();
+        let e = per_family.entry(fam).or_insert((0, 0));
+        e.0 += 1;
         if same {
             agree += 1;
+            e.1 += 1;
         } else {
             disagree.push(format!("{}: E1 ok={} code={} | program-test ok={} code={} | {}", c.name, c.e1_ok, c.e1_code, ok, code, diffs.join("; ")));
+            eprintln!("  DISAGREE {}", disagree.last().unwrap());
         }
         rows.push(serde_json::json!({"transaction": c.name, "e1": {"ok": c.e1_ok, "code": c.e1_code}, "program_test": {"ok": ok, "code": code}, "account_differences": diffs, "agree": same}));
-        eprintln!("  {} {}", if same { "AGREE   " } else { "DISAGREE" }, c.name);
+        if n % 50 == 49 {
+            eprintln!("  ... {} / {} replayed, {} agree", n + 1, cases.len(), agree);
+        }
     }
-    let out = serde_json::json!({"transactions": cases.len(), "agree": agree, "disagree": disagree, "rows": rows});
+    let fam_json: BTreeMap<String, serde_json::Value> = per_family.iter().map(|(k, v)| (k.clone(), serde_json::json!({"transactions": v.0, "agree": v.1}))).collect();
+    let out = serde_json::json!({"what": "every transaction below was executed by the harness environment E1 and by solana-program-test 2.1.20 (marginfi::entry as a native processor, SPL token programs as shipped with program-test) from the same account set and clock; agreement = same success / same custom error code and, for successes, byte-identical data, owner and lamports of every account", "transactions": cases.len() as u64 - skipped_invalid, "not_valid_on_chain_skipped": skipped_invalid, "agree": agree, "families": fam_json, "disagree": disagree, "rows": rows});
     std::fs::create_dir_all("/verif/evidence").ok();
-    std::fs::write("/verif/evidence/E4-conformance.json", serde_json::to_string_pretty(&out).unwrap()).unwrap();
-    println!("E4 conformance: {} of {} transactions agree", agree, cases.len());
-    for d in &disagree {
-        println!("  DISAGREE {}", d);
-    }
-    let _ = BTreeMap::<u8, u8>::new();
+    let file = if family == "all" { "/verif/evidence/E4-conformance.json".to_string() } else { format!("/verif/evidence/E4-conformance-{family}.json") };
+    std::fs::write(&file, serde_json::to_string_pretty(&out).unwrap()).unwrap();
+    println!("E4 conformance ({family}): {} of {} transactions agree ({} more are not valid Solana transactions and were skipped); families {:?}", agree, cases.len() as u64 - skipped_invalid, skipped_invalid, per_family);
     std::process::exit(if disagree.is_empty() { 0 } else { 2 });
 }
